@@ -70,6 +70,8 @@ pub fn user_string(kind: StrKind) -> BoxedStrategy<String> {
             2 => "[a-cA-C.*?]{1,5}",
             1 => "[a-z]{1,3}\\[[a-c]{1,2}\\][a-z]{0,2}",
             1 => "[a-z/]{1,6}",
+            // strings that are special to the code under test (template holes, generated names)
+            1 => prop::sample::select(crate::dict::names()),
         ]
         .boxed(),
         StrKind::Ident => prop_oneof![
